@@ -1488,7 +1488,7 @@ def run(ctx, res):
             res.samples.append({"kind": spec["kind"], "nodes": [{k: d[k] for k in ("name", "outputs", "inputs")} for d in info["descs"]][:6],
                                 "runs": [{k: r[k] for k in ("task", "call", "handled", "exn")} for r in runs][:4]})
     for kind, checker in (("graph", "check_graph"), ("job", "check_job"), ("fnode", "check_fluent"), ("fbuild", "check_fbuild")):
-        r, logs = coq_results("C10", HEADER, terms[kind], checker, shard=400 if kind in ("fnode", "fbuild") else ctx.n(55, 150), tag=kind)
+        r, logs = coq_results("C10", HEADER, terms[kind], checker, shard=400 if kind in ("fnode", "fbuild") else ctx.n(55, 60), tag=kind)   # coqc time grows faster than linearly with the size of a cases file
         res.corr_checked += len(r)
         for ok, spec in zip(r, metas[kind]):
             if ok is not True:
